@@ -232,6 +232,10 @@ impl AsmParser {
                     self.tok_end - tok.span.offs()
                 };
                 let span = Span::new(SrcOffset(tok.span.offs()), len);
+                // Statement lines and addresses are 16 bits wide
+                if self.air.len() >= u16::MAX as usize {
+                    return Err(error::parse_program_too_long(span, self.src));
+                }
                 self.air.add_stmt(stmt, span);
             } else {
                 if labeled_line {
@@ -240,7 +244,8 @@ impl AsmParser {
                 break;
             }
 
-            self.line += 1;
+            // Wraps only after the last addressable statement; any further one is rejected above
+            self.line = self.line.wrapping_add(1);
         }
         Ok(self.air)
     }
